@@ -2,6 +2,8 @@ import MgpuModel.C04
 import MgpuProofs.C04
 import MgpuProofs.C04Bits
 import MgpuProofs.C04Enc
+import MgpuProofs.C04Enc8
+import MgpuProofs.C04Arch
 import MgpuProofs.C04Total
 /-! # C04 — property theorems (decoding is total, deterministic, inverse to encoding)
 
@@ -113,17 +115,20 @@ theorem rows_reachable_all_fillings (r : Row) (hr : r ∈ allRows) :
 example : matchFormat 0x807fffff = formatOf FT_SOP2 ∧ matchFormat 0x80000000 = formatOf FT_SOP2 ∧
     matchFormat 0xD119ABCD = formatOf FT_VOP3b := by decide
 
-/-- **Encode/decode round trip** for SOP2, SOPK, SOP1, SOPC, SOPP, VOP2, VOP1, VOPC and SMEM
-    (field packing written out from the ISA manual in `encWord`, independent of the regenerated
-    format table): every well-formed description — opcode in the decode table, operand codes in
-    range and denoting an operand, a 32-bit literal present exactly when a source field says 255
-    (or the opcode is a VOP2 "K" form) — encodes to bytes that decode, WHATEVER bytes follow and on
-    both architectures, to exactly the instruction the description denotes on that architecture
-    (`instOf c`: name and opcode of the row the architecture's table returns — for a CDNA3
-    disassembler `Gen.cdna3Rows` first, e.g. VOP1 0x38 = `v_mov_b64` with 64-bit operands —, each operand at its role with its register count, the literal value,
-    immediates and flags, size 4 or 8). So the decoder's field extraction is the inverse of the
-    ISA's packing, no format shadows another on any well-formed word, and the literal is found. -/
-theorem decode_encode (c : Bool) (d : Desc) (hwf : wellFormed d = true) (t : List Nat) :
+/-- **Encode/decode round trip** for EVERY format the decoder handles — SOP2, SOPK, SOP1, SOPC, SOPP, VOP2 (incl. the
+    madmk/madak/fmamk/fmaak K forms and the SDWA second dword), VOP1, VOPC, SMEM, VOP3a (incl. the VOPC/VOP1 opcodes
+    in VOP3 encoding and the packed-math OP_SEL rows 944–946), VOP3b (the opcodes of `isVOP3bOpcode`), DS and
+    FLAT/GLOBAL/SCRATCH (SEG, SADDR, signed 13-bit offset) — with the field packing written out from the ISA manual
+    in `encWord` / `hiWord` / `sdwaWord`, independent of the regenerated format table: every well-formed description
+    (`wellFormed`: opcode in the decode table, every field within its width, every operand code denoting an operand,
+    modifiers in range, a 32-bit literal present exactly when a source field says 255 or the opcode is a VOP2 "K" form)
+    outside the two deviating classes of `deviates` encodes to bytes that decode, WHATEVER bytes follow and on both
+    architectures, to exactly the instruction the description denotes on that architecture (`instOf c`: name and opcode
+    of the row the architecture's table returns — for a CDNA3 disassembler `Gen.cdna3Rows` first —, each operand at its
+    role with its register kind, index, code and count, the literal value, immediates, offsets, modifiers and flags,
+    size = number of bytes encoded (`instOf_size`)). So the decoder's field extraction is the inverse of the ISA's
+    packing, no format shadows another on any well-formed word, and the literal / second dword is found. -/
+theorem decode_encode (c : Bool) (d : Desc) (hwf : wellFormed d = true) (hdev : deviates d = false) (t : List Nat) :
     decode c (encode d ++ t) = .ok (instOf c d) := by
   unfold wellFormed at hwf
   simp only [Bool.and_eq_true, beq_iff_eq] at hwf
@@ -134,7 +139,7 @@ theorem decode_encode (c : Bool) (d : Desc) (hwf : wellFormed d = true) (t : Lis
     obtain ⟨hr, hrf, hro⟩ := lookUp_some hrow
     -- the row this architecture's table returns for the same (format, opcode)
     obtain ⟨row', hrow', hrf', hro'⟩ := lookUpArch_of_lookUp (c := c) hrow
-    have hinst : instOf c d = instOfRow d row' := by simp [instOf, hrow']
+    have hinst : instOf c d = instOfRowArch c d row' := by simp [instOf, hrow']
     rw [hinst]
     have hfill := List.all_eq_true.mp rows_fill row hr
     cases hf : formatOf row.ft with
@@ -155,52 +160,162 @@ theorem decode_encode (c : Bool) (d : Desc) (hwf : wellFormed d = true) (t : Lis
         refine ⟨(hall0 w hw henc (by rw [hop, hro', hro])).1, ?_⟩
         rw [hop, hro', hfft]
         exact hrow'
-      rcases fieldsOK_ft hfo with h | h | h | h | h | h | h | h | h
+      have hnf : ∀ {ft}, d.ft = ft → ft ≠ FT_FLAT → instOfRowArch c d row' = instOfRow d row' := by
+        intro ft h hne
+        unfold instOfRowArch
+        rw [if_neg]
+        simp only [beq_iff_eq]
+        rw [h]
+        exact hne
+      rcases fieldsOK_ft hfo with h | h | h | h | h | h | h | h | h | h | h | h | h
       · obtain ⟨a1, a2, a3, a4, a5⟩ := fmt_sop2 f hfm (hfft.trans h)
         rw [a2, a3] at hfit
+        rw [hnf h (by decide)]
         refine roundtrip_of c d row' f hfm _ hall hsec ?_ t
         rw [a2, a3, a4, a5, hro']
         exact enc_sop2 c d row' f h (hfft.trans h) a1 hro' (by simpa using hfit) hfo hl
       · obtain ⟨a1, a2, a3, a4, a5⟩ := fmt_sopk f hfm (hfft.trans h)
         rw [a2, a3] at hfit
+        rw [hnf h (by decide)]
         refine roundtrip_of c d row' f hfm _ hall hsec ?_ t
         rw [a2, a3, a4, a5, hro']
-        exact enc_sopk c d row' f h (hfft.trans h) a1 hro' (by simpa using hfit) hfo hl
+        exact enc_sopk c d row' f h (hfft.trans h) a1 hro' (by simpa using hfit) hfo hl hdev
       · obtain ⟨a1, a2, a3, a4, a5⟩ := fmt_sop1 f hfm (hfft.trans h)
         rw [a2, a3] at hfit
+        rw [hnf h (by decide)]
         refine roundtrip_of c d row' f hfm _ hall hsec ?_ t
         rw [a2, a3, a4, a5, hro']
         exact enc_sop1 c d row' f h (hfft.trans h) a1 hro' (by simpa using hfit) hfo hl
       · obtain ⟨a1, a2, a3, a4, a5⟩ := fmt_sopc f hfm (hfft.trans h)
         rw [a2, a3] at hfit
+        rw [hnf h (by decide)]
         refine roundtrip_of c d row' f hfm _ hall hsec ?_ t
         rw [a2, a3, a4, a5, hro']
         exact enc_sopc c d row' f h (hfft.trans h) a1 hro' (by simpa using hfit) hfo hl
       · obtain ⟨a1, a2, a3, a4, a5⟩ := fmt_sopp f hfm (hfft.trans h)
         rw [a2, a3] at hfit
+        rw [hnf h (by decide)]
         refine roundtrip_of c d row' f hfm _ hall hsec ?_ t
         rw [a2, a3, a4, a5, hro']
         exact enc_sopp c d row' f h (hfft.trans h) a1 hro' (by simpa using hfit) hfo hl
       · obtain ⟨a1, a2, a3, a4, a5⟩ := fmt_vop2 f hfm (hfft.trans h)
         rw [a2, a3] at hfit
+        rw [hnf h (by decide)]
         refine roundtrip_of c d row' f hfm _ hall hsec ?_ t
         rw [a2, a3, a4, a5, hro']
-        exact enc_vop2 c d row' f h (hfft.trans h) a1 hro' (by simpa using hfit) hfo hl
+        by_cases hs : d.sdwa = 1
+        · exact enc_vop2_sdwa c d row' f h (hfft.trans h) a1 hro' (by simpa using hfit) hs hfo hdev
+        · exact enc_vop2 c d row' f h (hfft.trans h) a1 hro' (by simpa using hfit) (by simpa using hs) hfo hl
       · obtain ⟨a1, a2, a3, a4, a5⟩ := fmt_vop1 f hfm (hfft.trans h)
         rw [a2, a3] at hfit
+        rw [hnf h (by decide)]
         refine roundtrip_of c d row' f hfm _ hall hsec ?_ t
         rw [a2, a3, a4, a5, hro']
         exact enc_vop1 c d row' f h (hfft.trans h) a1 hro' (by simpa using hfit) hfo hl
       · obtain ⟨a1, a2, a3, a4, a5⟩ := fmt_vopc f hfm (hfft.trans h)
         rw [a2, a3] at hfit
+        rw [hnf h (by decide)]
         refine roundtrip_of c d row' f hfm _ hall hsec ?_ t
         rw [a2, a3, a4, a5, hro']
         exact enc_vopc c d row' f h (hfft.trans h) a1 hro' (by simpa using hfit) hfo hl
       · obtain ⟨a1, a2, a3, a4, a5⟩ := fmt_smem f hfm (hfft.trans h)
         rw [a2, a3] at hfit
+        rw [hnf h (by decide)]
         refine roundtrip_of c d row' f hfm _ hall hsec ?_ t
         rw [a2, a3, a4, a5, hro']
         exact enc_smem c d row' f h (hfft.trans h) a1 hro' (by simpa using hfit) hfo
+      · obtain ⟨a1, a2, a3, a4, a5⟩ := fmt_vop3a f hfm (hfft.trans h)
+        rw [a2, a3] at hfit
+        rw [hnf h (by decide)]
+        refine roundtrip_of c d row' f hfm _ hall hsec ?_ t
+        rw [a2, a3, a4, a5, hro']
+        exact enc_vop3a c d row' f h (hfft.trans h) a1 hro' (by simpa using hfit) hfo
+      · obtain ⟨a1, a2, a3, a4, a5⟩ := fmt_vop3b f hfm (hfft.trans h)
+        rw [a2, a3] at hfit
+        rw [hnf h (by decide)]
+        refine roundtrip_of c d row' f hfm _ hall hsec ?_ t
+        rw [a2, a3, a4, a5, hro']
+        exact enc_vop3b c d row' f h (hfft.trans h) a1 hro' (by simpa using hfit) hfo
+      · obtain ⟨a1, a2, a3, a4, a5⟩ := fmt_ds f hfm (hfft.trans h)
+        rw [a2, a3] at hfit
+        rw [hnf h (by decide)]
+        refine roundtrip_of c d row' f hfm _ hall hsec ?_ t
+        rw [a2, a3, a4, a5, hro']
+        exact enc_ds c d row' f h (hfft.trans h) a1 hro' (by simpa using hfit) hfo
+      · obtain ⟨a1, a2, a3, a4, a5⟩ := fmt_flat f hfm (hfft.trans h)
+        rw [a2, a3] at hfit
+        refine roundtrip_of c d row' f hfm _ hall hsec ?_ t
+        rw [a2, a3, a4, a5, hro']
+        exact enc_flat c d row' f h (hfft.trans h) a1 hro' (by simpa using hfit) hfo
+
+/-- **The reported size is the number of bytes encoded** (4, or 8 with a literal / SDWA dword / second half). -/
+theorem instOf_size (c : Bool) (d : Desc) (hwf : wellFormed d = true) : (instOf c d).size = (encode d).length := by
+  unfold wellFormed at hwf
+  simp only [Bool.and_eq_true] at hwf
+  obtain ⟨⟨⟨hlk, hfo⟩, _⟩, _⟩ := hwf
+  cases hrow : lookUp d.ft d.op with
+  | none => simp [hrow] at hlk
+  | some row =>
+    obtain ⟨row', hrow', _, _⟩ := lookUpArch_of_lookUp (c := c) hrow
+    have hlen : (encode d).length = if (encSecond d).isSome then 8 else 4 := by
+      unfold encode
+      cases encSecond d <;> simp [bytes32]
+    rw [hlen]
+    simp only [instOf, hrow']
+    unfold instOfRowArch
+    split
+    · rename_i hfl
+      have : encSecond d = some (hiWord d) := by
+        simp only [beq_iff_eq] at hfl
+        simp [encSecond, hfl, FT_FLAT, FT_SMEM, FT_VOP3a, FT_VOP3b, FT_DS]
+      simp [this]
+    · unfold instOfRow
+      simp only [apply_ite Inst.size, ite_self]
+
+/-- **Decoding never reads past the encoding**: the bytes of a well-formed description alone decode like the bytes
+    followed by anything. -/
+theorem decode_encode_exact (c : Bool) (d : Desc) (hwf : wellFormed d = true) (hdev : deviates d = false) (t : List Nat) :
+    decode c (encode d ++ t) = decode c (encode d) := by
+  have h := decode_encode c d hwf hdev []
+  rw [List.append_nil] at h
+  rw [h, decode_encode c d hwf hdev t]
+
+/-- The full statement — the round trip for EVERY well-formed description, including the two classes of `deviates` —
+    is false of the decoder as it is: -/
+def decode_encode_full : Prop :=
+  ∀ (c : Bool) (d : Desc) (t : List Nat), wellFormed d = true → decode c (encode d ++ t) = .ok (instOf c d)
+
+/-- witness 1: `s_setreg_imm32_b32 hwreg(1), 0x12345678` = `ba000001 12345678` (SOPK opcode 20 carries a 32-bit SIMM32
+    behind the first dword): 8 bytes, the decoder reports 4 — a sequential decode then takes the immediate for the next
+    instruction. witness 2: `v_add_f32_sdwa v0, s1, v2` (SDWA dword with S0 = bit 23): the decoder reads S0 from bit 30
+    and returns the VGPR `v1` as SRC0. -/
+theorem decode_encode_full_refuted : ¬ decode_encode_full := by
+  intro h
+  have := h false { ft := FT_SOPK, op := 20, simm16 := 1, lit := some 0x12345678 } [] (by decide +kernel)
+  revert this
+  decide +kernel
+
+/-- the SOPK witness, spelled out: well-formed, 8 bytes, decoded with size 4 on both architectures -/
+theorem setreg_imm32_missized :
+    let d : Desc := { ft := FT_SOPK, op := 20, simm16 := 1, lit := some 0x12345678 }
+    wellFormed d = true ∧ encode d = [0x01, 0x00, 0x00, 0xba, 0x78, 0x56, 0x34, 0x12] ∧
+    (∀ c, (match decode c (encode d) with | .ok i => (i.name, i.size) | _ => ("", 0)) = ("s_setreg_imm32_b32", 4)) := by
+  refine ⟨by decide +kernel, by decide +kernel, ?_⟩
+  intro c
+  cases c <;> decide +kernel
+
+/-- the SDWA witness, spelled out: `v_add_f32_sdwa v0, s1, v2 dst_sel:DWORD src0_sel:DWORD src1_sel:DWORD` is
+    well-formed, its ISA encoding is `000400f9 06860601`; the decoder answers SRC0 = `v1` (VGPR), the description
+    denotes `s1` (SGPR) -/
+theorem sdwa_s0_misread :
+    let d : Desc := { ft := FT_VOP2, op := 1, sdwa := 1, src0 := 1, s0 := 1, vsrc1 := 2, vdst := 0,
+                      dstSel := 6, src0Sel := 6, src1Sel := 6 }
+    wellFormed d = true ∧ encode d = [0xf9, 0x04, 0x00, 0x02, 0x01, 0x06, 0x86, 0x06] ∧
+    (instOf false d).src0 = some (sreg 1 1 0) ∧
+    (∀ c, (match decode c (encode d) with | .ok i => i.src0 | _ => none) = some (vreg 1 1 0)) := by
+  refine ⟨by decide +kernel, by decide +kernel, by decide +kernel, ?_⟩
+  intro c
+  cases c <;> decide +kernel
 
 /-- non-vacuity of the architecture split: VOP1 opcode 0x38 (`7e047104`) is `v_mov_b64 v[2:3], v[4:5]`
     for a CDNA3 disassembler and `v_movrelsd_b32 v2, v4` otherwise -/
@@ -229,6 +344,36 @@ example : [ ({ ft := FT_SOP2, op := 0, sdst := 1, ssrc0 := 255, ssrc1 := 2, lit 
     wellFormed { ft := FT_SOP2, op := 127, sdst := 1, ssrc0 := 1, ssrc1 := 2 } = false ∧
     encode { ft := FT_SOP2, op := 0, sdst := 1, ssrc0 := 255, ssrc1 := 2, lit := some 0xdeadbeef } =
       [0xff, 0x02, 0x01, 0x80, 0xef, 0xbe, 0xad, 0xde] := by
+  decide +kernel
+
+/-- non-vacuity for the formats added by the deepening: `v_mad_f32 v1, v2, -|s3|, 1.0 clamp`-style VOP3a, a VOPC opcode in
+    VOP3a encoding writing `vcc`, a packed row with OP_SEL, `v_add_co_u32 v1, vcc, v2, v3` (VOP3b), `v_mad_u64_u32`,
+    `ds_write2_b32` with separate offsets, `ds_read_b64`, `global_load_dwordx2 v[1:2], v3, s[4:5] offset:-8`,
+    `flat_store_dword`, `v_add_f32_sdwa` — all well-formed, none deviating; reserved operand codes / over-wide fields /
+    an SDWA K-opcode are rejected -/
+example : [ ({ ft := FT_VOP3a, op := 449, vdst := 1, src0 := 258, src1 := 3, src2 := 242, abs := 2, neg := 2, clamp := 1 } : Desc),
+            { ft := FT_VOP3a, op := 0x41, vdst := 106, src0 := 257, src1 := 258 },
+            { ft := FT_VOP3a, op := 944, vdst := 1, src0 := 257, src1 := 258, src2 := 259, opsel := 13, omod := 3 },
+            { ft := FT_VOP3b, op := 281, vdst := 1, sdst := 106, src0 := 258, src1 := 259 },
+            { ft := FT_VOP3b, op := 488, vdst := 4, sdst := 10, src0 := 258, src1 := 259, src2 := 260 },
+            { ft := FT_DS, op := 14, offset0 := 1, offset1 := 2, addr := 3, data0 := 4, data1 := 5 },
+            { ft := FT_DS, op := 118, offset0 := 0x34, offset1 := 0x12, addr := 3, vdst := 8, gds := 1 },
+            { ft := FT_FLAT, op := 21, seg := 2, offset := 0x1ff8, addr := 3, saddr := 4, vdst := 1, glc := 1 },
+            { ft := FT_FLAT, op := 28, seg := 0, addr := 2, data := 7, saddr := 0x7f, slc := 1 },
+            { ft := FT_VOP2, op := 1, sdwa := 1, src0 := 1, vsrc1 := 2, s1 := 1, vdst := 0, dstSel := 4, dstUnused := 2,
+              src0Sel := 6, src1Sel := 5 } ].all (fun d => wellFormed d && !deviates d) = true ∧
+    wellFormed { ft := FT_VOP3a, op := 449, vdst := 1, src0 := 258, src1 := 3, src2 := 209 } = false ∧
+    wellFormed { ft := FT_VOP3a, op := 449, vdst := 1, src0 := 258, src1 := 3, src2 := 4, abs := 8 } = false ∧
+    wellFormed { ft := FT_FLAT, op := 21, offset := 0x2000 } = false ∧
+    wellFormed { ft := FT_VOP2, op := 24, sdwa := 1 } = false ∧
+    wellFormed { ft := FT_VOP2, op := 1, sdwa := 1, dstSel := 7 } = false ∧
+    encode { ft := FT_FLAT, op := 21, seg := 2, offset := 0x1ff8, addr := 3, saddr := 4, vdst := 1, glc := 1 } =
+      [0xf8, 0x9f, 0x55, 0xdc, 0x03, 0x00, 0x04, 0x01] ∧
+    (instOf true { ft := FT_FLAT, op := 21, seg := 2, offset := 0x1ff8, addr := 3, saddr := 4, vdst := 1, glc := 1 }).addr
+      = some (vreg 3 3 1) ∧
+    (instOf true { ft := FT_FLAT, op := 21, seg := 0, offset := 0x1ff8, addr := 3, saddr := 4, vdst := 1, glc := 1 }).addr
+      = some (vreg 3 3 2) ∧
+    (instOf true { ft := FT_FLAT, op := 21, seg := 2, offset := 0x1ff8, addr := 3, saddr := 4, vdst := 1 }).offset0 = 0xfffffff8 := by
   decide +kernel
 
 /-- **Reported sizes are 4 or 8 and never exceed the buffer**, for every byte string. -/
@@ -358,5 +503,113 @@ theorem sdwa_unsupported_notimpl (c : Bool) (buf : List Nat) (h8 : 8 ≤ buf.len
 
 /-- non-vacuity: `v_add_f32_sdwa` with the clamp bit -/
 example : sdwaUnsupported 0x2000 = true ∧ sdwaUnsupported 0x06060600 = false := by decide
+
+/-- **SDWA / DPP forms the decoder does not support are reported as undecodable.** A VOP1 or VOPC word whose SRC0
+    field says 249 (SDWA) or 250 (DPP), and a VOP2 word with SRC0 = 250 (DPP), is an error whatever follows — never a
+    mis-sized instruction or a fault (only VOP2 + SDWA is decoded, see `decode_encode`). -/
+theorem sdwa_dpp_unsupported (c : Bool) (f : Format) (row : Row) (w0 : Nat) (w1? : Option Nat) (hsz : f.size = 4)
+    (h : ((f.ft = FT_VOP1 ∨ f.ft = FT_VOPC) ∧ (extractBits w0 0 8 = 249 ∨ extractBits w0 0 8 = 250)) ∨
+         (f.ft = FT_VOP2 ∧ extractBits w0 0 8 = 250)) :
+    decodeRow c f row w0 w1? = .err := by
+  have g249 : getOperand 249 = none := by decide
+  have g250 : getOperand 250 = none := by decide
+  unfold decodeRow
+  have h8 : (f.size == 8) = false := by rw [hsz]; decide
+  simp only [h8, Bool.false_eq_true, if_false]
+  rcases h with ⟨hf | hf, hs | hs⟩ | ⟨hf, hs⟩
+  · simp [dec4, hf, FT_SOP2, FT_VOP2, FT_VOP1, decodeVOP1, hs, g249]
+  · simp [dec4, hf, FT_SOP2, FT_VOP2, FT_VOP1, decodeVOP1, hs, g250]
+  · simp [dec4, hf, FT_SOP2, FT_VOP2, FT_VOP1, FT_SOPP, FT_VOPC, decodeVOPC, hs, g249]
+  · simp [dec4, hf, FT_SOP2, FT_VOP2, FT_VOP1, FT_SOPP, FT_VOPC, decodeVOPC, hs, g250]
+  · simp [dec4, hf, FT_SOP2, FT_VOP2, decodeVOP2, hs, g250]
+
+/-- non-vacuity: `v_mov_b32_sdwa` (7e0002f9 …), `v_mov_b32_dpp` (7e0002fa …), `v_add_f32_dpp` (020000fa …) and
+    `v_cmp_lt_f32_sdwa` (7c8200f9 …) are errors; `v_add_f32_sdwa` decodes -/
+example : decode true [0xf9, 0x02, 0x00, 0x7e, 0x00, 0x06, 0x06, 0x00] = .err ∧
+    decode true [0xfa, 0x02, 0x00, 0x7e, 0x00, 0x00, 0x00, 0xff] = .err ∧
+    decode false [0xfa, 0x00, 0x00, 0x02, 0x00, 0x00, 0x00, 0xff] = .err ∧
+    decode false [0xf9, 0x00, 0x82, 0x7c, 0x00, 0x06, 0x06, 0x00] = .err ∧
+    decode false [0xf9, 0x00, 0x00, 0x02, 0x00, 0x06, 0x06, 0x06] ≠ .err := by
+  decide +kernel
+
+/-! ## The CDNA3 override table -/
+
+/-- no two `addCDNA3InstType` calls register the same (format, opcode) -/
+theorem cdna3_rows_keys_nodup : (cdna3Rows.map rkey).Nodup :=
+  nodup_of_noDupBits _ (by decide +kernel)
+
+theorem cdna3_rows_opcode_bound : ∀ r ∈ cdna3Rows, r.opcode < 1024 := by
+  have h : cdna3Rows.all (fun r => decide (r.opcode < 1024)) = true := by decide +kernel
+  intro r hr
+  simpa using List.all_eq_true.mp h r hr
+
+/-- **The table lookup of either architecture does not depend on registration / map-iteration order**: for every
+    permutation of the shared registrations and every permutation of the CDNA3 override registrations, `lookUp`
+    (override first when `IsCDNA3`, shared table otherwise) answers as the canonical instance — the decode tables are
+    functions of their CONTENT, there is no hidden state in how a disassembler instance was built. Together with
+    `matchFormat_order_irrelevant` every independently constructed `Disassembler` with the same flag computes the
+    same `Decode`. -/
+theorem lookUpArch_order_irrelevant (s k : List Row) (hs : s.Perm allRows) (hk : k.Perm cdna3Rows)
+    (c : Bool) (ft op : Nat) : lookUpArchIn s k c ft op = lookUpArch c ft op := by
+  rw [← lookUpArchIn_canon]
+  exact lookUpArchIn_perm s allRows k cdna3Rows hs hk
+    ((hs.map _).nodup_iff.mpr rows_keys_nodup) (fun r hr => rows_opcode_bound r (hs.subset hr))
+    ((hk.map _).nodup_iff.mpr cdna3_rows_keys_nodup) (fun r hr => cdna3_rows_opcode_bound r (hk.subset hr)) c ft op
+
+/-- non-vacuity: reversing both registration lists is such a pair of permutations, and the override matters -/
+example : allRows.reverse.Perm allRows ∧ cdna3Rows.reverse.Perm cdna3Rows ∧
+    lookUpArch true FT_VOP1 56 ≠ lookUpArch false FT_VOP1 56 ∧ 0 < cdna3Rows.length :=
+  ⟨List.reverse_perm _, List.reverse_perm _, by decide +kernel, by decide⟩
+
+theorem cdna3_rows_fill : cdna3Rows.all cdnaRowOK = true := by decide +kernel
+
+/-- **Every CDNA3 override row is reachable under every operand filling, and only overrides**: any 32-bit word with the
+    row's format encoding and opcode is matched to the row's format, a CDNA3 disassembler's lookup returns exactly the
+    override row, and the shared table has a row for the same key (so the GCN3 disassembler decodes the same word
+    too — the override changes the meaning of an opcode, never the set of decodable words or the format split). -/
+theorem cdna3_rows_reachable (r : Row) (hr : r ∈ cdna3Rows) :
+    ∃ f, formatOf r.ft = some f ∧
+      ∀ w, w < 2 ^ 32 → (w ^^^ f.encoding) &&& f.mask = 0 → extractBits w f.opLo f.opHi = r.opcode →
+        matchFormat w = some f ∧ lookUpArch true f.ft (extractBits w f.opLo f.opHi) = some r ∧
+        (lookUpArch false f.ft (extractBits w f.opLo f.opHi)).isSome = true := by
+  have hok := List.all_eq_true.mp cdna3_rows_fill r hr
+  unfold cdnaRowOK at hok
+  simp only [Bool.and_eq_true] at hok
+  obtain ⟨hfill, hsh⟩ := hok
+  cases hf : formatOf r.ft with
+  | none => simp [rowFill, hf] at hfill
+  | some f =>
+    refine ⟨f, rfl, ?_⟩
+    intro w hw henc hop
+    refine ⟨match_of_rowFill hfill hf hw (by simpa [hit] using henc) hop, ?_, ?_⟩
+    · rw [hop, (formatOf_mem hf).2]
+      have := lastRow_of_mem cdna3Rows cdna3_rows_keys_nodup cdna3_rows_opcode_bound r hr
+      simp [lookUpArch, this]
+    · rw [hop, (formatOf_mem hf).2, lookUpArch_false]
+      exact hsh
+
+/-- non-vacuity: `v_mov_b64` (VOP1 0x38) overrides `v_movrelsd_b32` -/
+example : (cdna3Rows.map (·.name)) = ["v_mov_b64"] ∧ (lookUp FT_VOP1 56).map (·.name) = some "v_movrelsd_b32" := by
+  decide +kernel
+
+/-- **Where the architecture flag matters.** `Decode` is a function of (IsCDNA3, bytes); the flag can change the
+    result only for SMEM (signed 21-bit immediate), FLAT (SEG / SADDR rule) and the (format, opcode) keys of the
+    override table: for every other byte string both settings decode identically. -/
+theorem decode_arch_agree (buf : List Nat) (f : Format) (hm : matchFormat (le32 buf 0) = some f)
+    (h1 : f.ft ≠ FT_SMEM) (h2 : f.ft ≠ FT_FLAT)
+    (hk : lastRow cdna3Rows f.ft (extractBits (le32 buf 0) f.opLo f.opHi) = none) :
+    decode true buf = decode false buf := by
+  unfold decode decodeWith
+  split
+  · rfl
+  · exact decodeCore_arch _ _ f hm h1 h2 hk
+
+/-- non-vacuity and sharpness: `v_add_f32` agrees; SMEM with offset bit 20, a GLOBAL load with SADDR = s0 and VOP1 0x38
+    differ -/
+example : decode true [0x02, 0x03, 0x00, 0x02] = decode false [0x02, 0x03, 0x00, 0x02] ∧
+    decode true [0x02, 0x01, 0x02, 0xc0, 0xf0, 0xff, 0x1f, 0x00] ≠ decode false [0x02, 0x01, 0x02, 0xc0, 0xf0, 0xff, 0x1f, 0x00] ∧
+    decode true [0x00, 0x80, 0x54, 0xdc, 0x03, 0x00, 0x00, 0x01] ≠ decode false [0x00, 0x80, 0x54, 0xdc, 0x03, 0x00, 0x00, 0x01] ∧
+    decode true [0x04, 0x71, 0x04, 0x7e] ≠ decode false [0x04, 0x71, 0x04, 0x7e] := by
+  decide +kernel
 
 end C04
